@@ -178,6 +178,7 @@ def binding_selftest(rep: Report, traces: list):
     t = copy.deepcopy(base); t["ret"]["theta"] += 1; cases["the returned parameters off by one update"] = (t, "Returns")
     t = copy.deepcopy(base); t["ev"] = t["ev"][:-3]; cases["the last three events dropped"] = (t, "")
     t = copy.deepcopy(base); t["ev"][tr_idx[0]]["crows"][0] = (t["ev"][tr_idx[0]]["crows"][0] + 1) % t["cfg"]["n"]; cases["x and condition rows misaligned"] = (t, "Aligned")
+    cases = {"(the recording itself, uncorrupted)": (copy.deepcopy(base), None), **cases}
     probe = Report(PID, rep.tier, "model_checking")
     probe.findings = []
     import contextlib
@@ -186,10 +187,10 @@ def binding_selftest(rep: Report, traces: list):
         tracecheck.check(probe, "Trace_FitToData", "Trace_FitToData_I.cfg", [c[0] for c in cases.values()], FTD_GUARDS, pid=PID,
                          describe=lambda tr: {"n": tr["cfg"]["n"]})
     msgs = [v[1] for v in probe.violations]
-    out = {}
-    for (name, (_t, clause)), i in zip(cases.items(), range(len(cases))):
-        hit = [m for m in msgs]
-        out[name] = "rejected"
+    cases.pop("(the recording itself, uncorrupted)")
+    if len(probe.violations) > len(cases):        # the recording itself is rejected (the code under test is broken): no self-test
+        rep.note("binding self-test skipped: the uncorrupted recording is itself rejected")
+        return
     if len(probe.violations) != len(cases):
         rep.machinery_failure(f"binding self-test: {len(cases)} corrupted recordings, only {len(probe.violations)} rejected: {msgs}")
     for name, (_t, clause) in cases.items():
